@@ -74,6 +74,7 @@ type c20Out struct {
 	MaxSelTimeout                                    float64
 	ElapsedMs                                        int
 	AuthtokSet                                       int
+	Overwait      int // selects entered after more than twice the timeout had been waited (signal storm cases)
 	Finished                                         bool
 }
 
@@ -167,6 +168,11 @@ func c20Cases(rng *rand.Rand, encoderOnly bool) []c20Case {
 			add(cl, c20Case{User: []byte("alice"), Pw: []byte("secret"), Eintr: e, Errno0: en, Script: noReply})
 			add(cl, c20Case{User: []byte("alice"), Pw: []byte("secret"), Eintr: e, Errno0: en, Script: c20Script{Name: "payload:\"\"", Reply: c20Part(nil, -1)}})
 		}
+	}
+	// a signal storm: every wait is interrupted after 0.3 x the timeout, a dozen times in a row, while the server is silent,
+	// slow or normal: the module may give up early (failing closed) but must not keep waiting beyond the timeout
+	for _, sc := range []c20Script{{Name: "silence", End: "hold", HoldMs: 6000}, okReply, noReply, {Name: "ok-after-2500ms", Reply: okReply.Reply, DelayMs: 2500, HoldMs: 500}} {
+		add("signal-storm", c20Case{User: []byte("alice"), Pw: []byte("secret"), Timeout: 1, Opts: []string{"try_first_pass", "timeout=1"}, Eintr: 112, Script: sc})
 	}
 	// A: reply grammar
 	payloads := []string{"OK", "NO", "O", "", "OKAY", "ok", "Ok", "oK", "OK successfully authenticated", "NO wrong credentials", "OK\x00", "\x00OK", "KO", " OK", "NOOK", "OK ", "N", "NOK", "0K", "OK\n", "YES", "TRUE", "1", "OKO", "O\x00K"}
@@ -473,6 +479,9 @@ func c20(encoderOnly bool) {
 				o.MaxSelTimeout, _ = strconv.ParseFloat(f[8], 64)
 				o.ElapsedMs, _ = strconv.Atoi(f[9])
 				o.AuthtokSet, _ = strconv.Atoi(f[10])
+				if len(f) >= 12 {
+					o.Overwait, _ = strconv.Atoi(f[11])
+				}
 				last = ""
 			}
 		}
@@ -621,6 +630,9 @@ func c20(encoderOnly bool) {
 		}
 		if o.NonFinite > 0 {
 			R.Violate(pfx+":select-without-finite-timeout:"+c.Class, "select called with no or an absurd timeout", c.ID, wit)
+		}
+		if o.Overwait > 0 {
+			R.Violate(pfx+":wait-restarted-beyond-timeout:"+c.Class, fmt.Sprintf("with signals interrupting every wait after 0.3 x the timeout the module entered select %d more times after it had already waited more than twice the timeout for the same transfer (each interruption restarts the full timeout)", o.Overwait), c.ID, wit)
 		}
 		if o.Selects > 2*transferred+2*len(c.User)+2*len(c.Pw)+16 {
 			R.Violate(pfx+":select-spin:"+c.Class, fmt.Sprintf("%d select calls for %d bytes transferred", o.Selects, transferred), c.ID, wit)
